@@ -5,10 +5,12 @@ CONSTANTS
  Urls <- MCUrls
  UserNames <- MCUserNames
  Paths <- MCPaths
+ Passwords <- MCPasswords
+ Spellings <- MCSpellings
  PageSizes <- MCPageSizes
  MaxHist = 30
  EmitAt = 99
 VIEW View
-INVARIANTS PagingComplete
+INVARIANTS RefusedChangedNothing PagingComplete
 ACTION_CONSTRAINT EmitEdge
 CHECK_DEADLOCK FALSE
